@@ -995,3 +995,98 @@ func ruleWrapperForwards(c *Ctx, rule string) {
 	c.CallSites(n)
 	c.Floor(rule, 5)
 }
+
+// ruleNoTxStateInStores (NOTXSTATE): the objects that outlive a transaction — stores, indexes, symbols, link
+// collections — hold nothing that belongs to one: no bbolt transaction, bucket or cursor and no TypedBucket,
+// directly or inside a remembered struct. A bucket handle is only good until the bucket is deleted or the
+// transaction ends; one remembered in the store is handed out again after the entity was deleted in the same
+// transaction (the entity still counts as present, a link to it is accepted, the write goes through freed pages).
+func ruleNoTxStateInStores(c *Ctx, rule string) {
+	p := c.P
+	pkg := p.pkg("boltz")
+	if pkg == nil {
+		c.Undecided(rule, "boltz", "-", "package not loaded")
+		return
+	}
+	long := map[string]bool{"BaseStore": true, "uniqueIndex": true, "setIndex": true, "fkIndex": true, "Indexer": true,
+		"linkCollectionImpl": true, "rcLinkCollectionImpl": true, "entitySymbol": true, "entitySetSymbolImpl": true,
+		"LinkedSetSymbol": true, "RefCountedLinkedSetSymbol": true, "fkConstraint": true, "fkDeleteConstraint": true, "fkDeleteCascadeConstraint": true}
+	var holdsTx func(t types.Type, d int, seen map[types.Type]bool) string
+	holdsTx = func(t types.Type, d int, seen map[types.Type]bool) string {
+		if d > 4 || seen[t] {
+			return ""
+		}
+		seen[t] = true
+		if nm := namedOf(deref(t)); nm != nil && nm.Obj().Pkg() != nil {
+			path, name := nm.Obj().Pkg().Path(), nm.Obj().Name()
+			if strings.HasSuffix(path, "bbolt") && (name == "Tx" || name == "Bucket" || name == "Cursor") {
+				return "bbolt." + name
+			}
+			if nm.Obj().Pkg().Name() == "boltz" && name == "TypedBucket" {
+				return "boltz.TypedBucket"
+			}
+			if ta := nm.TypeArgs(); ta != nil {
+				for i := 0; i < ta.Len(); i++ {
+					if h := holdsTx(ta.At(i), d+1, seen); h != "" {
+						return h
+					}
+				}
+			}
+			if nm.Obj().Pkg().Name() != "boltz" {
+				return ""
+			}
+		}
+		switch u := deref(t).Underlying().(type) {
+		case *types.Struct:
+			for i := 0; i < u.NumFields(); i++ {
+				if h := holdsTx(u.Field(i).Type(), d+1, seen); h != "" {
+					return h
+				}
+			}
+		case *types.Slice:
+			return holdsTx(u.Elem(), d+1, seen)
+		case *types.Array:
+			return holdsTx(u.Elem(), d+1, seen)
+		case *types.Map:
+			if h := holdsTx(u.Key(), d+1, seen); h != "" {
+				return h
+			}
+			return holdsTx(u.Elem(), d+1, seen)
+		case *types.Pointer:
+			return holdsTx(u.Elem(), d+1, seen)
+		}
+		return ""
+	}
+	n := 0
+	scope := pkg.Types.Scope()
+	for _, name := range scope.Names() {
+		if !long[name] {
+			continue
+		}
+		tn, ok := scope.Lookup(name).(*types.TypeName)
+		if !ok {
+			continue
+		}
+		st, ok := tn.Type().Underlying().(*types.Struct)
+		if !ok {
+			continue
+		}
+		n++
+		bad, badF := "", ""
+		for i := 0; i < st.NumFields(); i++ {
+			f := st.Field(i)
+			if _, isIface := f.Type().Underlying().(*types.Interface); isIface {
+				continue
+			}
+			if nm := namedOf(deref(f.Type())); nm != nil && long[nm.Obj().Name()] {
+				continue // another long-lived object, checked itself
+			}
+			if h := holdsTx(f.Type(), 0, map[types.Type]bool{}); h != "" && bad == "" {
+				bad, badF = h, f.Name()
+			}
+		}
+		c.Check(bad == "", rule, "boltz."+name, p.Pos(tn.Pos()), "holds nothing that belongs to a transaction", "field "+badF+" of the long-lived "+name+" holds a "+bad+": a handle that belongs to one transaction (and dies with the bucket it names) is remembered across lookups — after the entity is deleted in the same transaction the remembered bucket still answers for its id, so the entity counts as present, a link to it is accepted and written through freed pages")
+	}
+	c.CallSites(n)
+	c.Floor(rule, 8)
+}
